@@ -539,10 +539,28 @@ func (fv *FV) execSwitch(st *State, x *ast.SwitchStmt, ctl *Ctl, k Kont) {
 		inner := ctl.with("", k, nil)
 		cur := st
 		var deflt *ast.CaseClause
-		for _, c := range x.Body.List {
+		defltIdx := -1
+		// runClause executes the body of clause i; a trailing `fallthrough` continues with the body of the next clause
+		// in source order (without evaluating its case expressions), as the language defines
+		var runClause func(i int, s *State)
+		runClause = func(i int, s *State) {
+			body := x.Body.List[i].(*ast.CaseClause).Body
+			if n := len(body); n > 0 {
+				if b, ok := body[n-1].(*ast.BranchStmt); ok && b.Tok == token.FALLTHROUGH {
+					if i+1 >= len(x.Body.List) {
+						fv.abort(b.Pos(), "fallthrough in the last clause")
+					}
+					fv.execBlock(s, body[:n-1], inner, func(s2 *State) { runClause(i+1, s2) })
+					return
+				}
+			}
+			fv.execBlock(s, body, inner, k)
+		}
+		for ci, c := range x.Body.List {
 			cc := c.(*ast.CaseClause)
 			if cc.List == nil {
 				deflt = cc
+				defltIdx = ci
 				continue
 			}
 			var conds []Term
@@ -558,16 +576,11 @@ func (fv *FV) execSwitch(st *State, x *ast.SwitchStmt, ctl *Ctl, k Kont) {
 			hit := cur.clone()
 			hit.assume(cond)
 			fv.countPath(cc.Pos())
-			for _, s := range cc.Body {
-				if b, ok := s.(*ast.BranchStmt); ok && b.Tok == token.FALLTHROUGH {
-					fv.abort(b.Pos(), "fallthrough is outside the subset")
-				}
-			}
-			fv.execBlock(hit, cc.Body, inner, k)
+			runClause(ci, hit)
 			cur.assume(tNot(cond))
 		}
 		if deflt != nil {
-			fv.execBlock(cur, deflt.Body, inner, k)
+			runClause(defltIdx, cur)
 		} else {
 			k(cur)
 		}
